@@ -170,6 +170,27 @@ def _ellipsoid_shell(a, b, c, nt=160, nph=256):
     return A, np.array([syy + szz, sxx + szz, sxx + syy])
 
 
+# Thomsen's closed-form approximation of the ellipsoid area, 4 pi ((a^p b^p + b^p c^p + c^p a^p)/3)^(1/p) with p = 1.6075, has a
+# worst-case relative error of 1.061 % (Thomsen 2004; the supremum is reached for a flat disc).  The area of a general ellipsoid
+# has no closed form (incomplete elliptic integrals) and the documentation promises "density ... has semantics of mass/area"
+# without promising an exact area, so C35 accepts the mass of a density-specified ellipsoidal shell within this bound (with a
+# little head room for the quadrature) instead of treating it as a defect.  The formula itself is deliberately NOT evaluated here.
+THOMSEN_MAX_RELERR = 1.07e-2
+
+
+def ellipsoid_layer_unit_inertia(a, b, c, eps=1e-6):
+    """DEFECT MODEL, used only by C35's classifier of the known finding `ellipsoid-shell:inertia-tensor` (never as the
+    reference): principal moments per unit mass of the solid layer between the ellipsoids (a,b,c) and (a+eps,b+eps,c+eps).
+    That layer has non-uniform normal thickness eps (u1^2/a + u2^2/b + u3^2/c) / |(u1/a, u2/b, u3/c)|, so its moments differ from
+    the uniform shell's by up to 20 % (needle / disc limits), 15 % for aspect ratios up to 14."""
+    def vol(a, b, c):
+        return 4.0 / 3.0 * PI * a * b * c
+
+    def mom(a, b, c):
+        return vol(a, b, c) * np.array([b * b + c * c, a * a + c * c, a * a + b * b]) / 5.0
+    return (mom(a + eps, b + eps, c + eps) - mom(a, b, c)) / (vol(a + eps, b + eps, c + eps) - vol(a, b, c))
+
+
 def primitive(gtype, size, shell=False):
     """(measure, I_unit) with I_unit the principal moments about the centroid PER UNIT MASS, in the geom frame
     (capsule/cylinder axis = z; size as in MJCF: radius, half-length / semi-axes / half-extents)."""
@@ -408,6 +429,15 @@ def selftest():
             else:
                 assert errs[2] < errs[1] < errs[0] and errs[2] < 2e-3, (g, shell, errs)
                 assert 3.0 < errs[0] / errs[1] < 5.0 and 3.0 < errs[1] / errs[2] < 5.0, (g, shell, errs)
+    # ellipsoid quadrature against the closed form of the oblate spheroid area (aspect ratios up to 15)
+    for a_, c_ in ((1.0, 0.5), (1.0, 0.1), (0.3, 0.02)):
+        ecc = math.sqrt(1 - c_ * c_ / (a_ * a_))
+        exact = 2 * PI * a_ * a_ + PI * c_ * c_ / ecc * math.log((1 + ecc) / (1 - ecc))
+        assert abs(_ellipsoid_shell(a_, a_, c_)[0] / exact - 1) < 1e-8, (a_, c_)
+    # defect model: a sphere's layer is a uniform shell (up to the finite eps); a prolate needle is ~15 % off
+    assert np.abs(ellipsoid_layer_unit_inertia(0.1, 0.1, 0.1) / primitive("ellipsoid", [0.1] * 3, True)[1] - 1).max() < 3e-5
+    dev = np.abs(ellipsoid_layer_unit_inertia(0.1, 0.1, 1.4) / primitive("ellipsoid", [0.1, 0.1, 1.4], True)[1] - 1).max()
+    assert 0.13 < dev < 0.15, dev
     # orientation conversions round trip
     for _ in range(100):
         q = rng.normal(size=4)
